@@ -15,7 +15,7 @@ RULE = ('one run = one generated scenario (1-8 concurrent client conversations d
         'its own schedule; compared per connection: client byte stream, upstream byte stream, and the order of data / '
         'close events (chunking and timing ignored); non-trivial = at least two concurrent clients or more than one '
         'acceptor / worker; distinct = distinct combined event-log digests')
-PROBES = ['forward', 'forward_persistent', 'large_transfer', 'tunnel', 'web', 'reverse', 'malformed', 'refused',
+PROBES = ['client_half_close', 'forward', 'forward_persistent', 'large_transfer', 'tunnel', 'web', 'reverse', 'malformed', 'refused',
           'concurrent_clients', 'acceptors_gt1', 'workers_gt1', 'all_three_equal']
 COMPONENTS = {
     'real': ['proxy/proxy.py', 'proxy/core/acceptor/*.py', 'proxy/core/listener/*.py', 'proxy/core/work/threadless.py',
@@ -57,7 +57,11 @@ def run_world(tape: Any, scenario: Dict[str, Any], mode_args: List[str], nacc: i
     out: Dict[str, Any] = {'conns': [], 'failures': [], 'hung': False}
     with World(tape) as w:
         scen.sched_swarm(w, tape)
-        route = make_web_route_plugin(1, r'/web', lambda tg: b'web-reply:' + tg + b'!' * 40)
+        def web_body(tg: bytes) -> bytes:
+            # the tag may ask for a large reply: b'c3-50000'
+            n = int(tg.split(b'-')[1]) if b'-' in tg else 40
+            return b'web-reply:' + tg + b'!' * n
+        route = make_web_route_plugin(1, r'/web', web_body)
         rp = make_reverse_plugin([(r'/rev%d$' % k, [b'http://10.1.%d.1/base%d' % (k, k)]) for k in range(8)])
         from proxy.proxy import Proxy
         args = ['--hostname', '127.0.0.1', '--port', '8899', '--num-acceptors', str(nacc), '--num-workers', str(nwork),
@@ -87,8 +91,13 @@ def run_world(tape: Any, scenario: Dict[str, Any], mode_args: List[str], nacc: i
                            ('wait_rx', lambda pe: b'\r\n\r\n' in pe.rx), ('send', b'ping-%d' % k, 'burst'),
                            ('wait_rx', lambda pe, k=k: pe.rx.endswith(b'pong-%d' % k)), ('close',)]
             elif role == 'web':
-                script += [('send', b'GET /web HTTP/1.1\r\nHost: l\r\nX-Req-Tag: c%d\r\n\r\n' % k, 'burst'),
-                           ('wait_rx', lambda pe: count_responses(bytes(pe.rx)) >= 1), ('close',)]
+                tag = b'c%d' % k + (b'-%d' % cn['size'] if cn.get('size') else b'')
+                script += [('send', b'GET /web HTTP/1.1\r\nHost: l\r\nX-Req-Tag: ' + tag + b'\r\n\r\n', 'burst')]
+                if cn.get('halfclose'):
+                    # request, FIN, then read to the end: the reply is still being produced when the proxy sees our EOF
+                    script += [('shut_wr',), ('wait_eof',), ('close',)]
+                else:
+                    script += [('wait_rx', lambda pe: count_responses(bytes(pe.rx)) >= 1), ('close',)]
             elif role == 'reverse':
                 org = Origin(w, ip, 80, lambda i, k=k: [('serve', lambda pe, info: [('send', b'HTTP/1.1 200 OK\r\nContent-Length: 5\r\n\r\nrev-%d' % k, 'burst')], 1),
                                                         ('wait_eof',), ('close',)], name='o%d' % k)
@@ -100,7 +109,8 @@ def run_world(tape: Any, scenario: Dict[str, Any], mode_args: List[str], nacc: i
                 script += [('send', b'GET http://10.1.%d.9/x HTTP/1.1\r\nHost: 10.1.%d.9\r\n\r\n' % (k, k), 'burst'),
                            ('wait_eof',), ('close',)]
             c = Peer(w, 'c%d' % k, script, read_mode='chunky')
-            c.connect_fn = (lambda k=k: (lambda peer: w.actor_connect('127.0.0.1', 8899, label='c%d' % k)))()
+            capc = 1024 if cn.get('halfclose') else 65536
+            c.connect_fn = (lambda k=k, capc=capc: (lambda peer: w.actor_connect('127.0.0.1', 8899, cap_to_client=capc, label='c%d' % k)))()
             peers.append((c, org))
         w.settle(2.0, 600.0)
         for c, org in peers:
@@ -159,6 +169,12 @@ def run_one(tape: Any, cfg: Dict[str, Any], forbid: FrozenSet[str] = frozenset()
                 resps.append(b'HTTP/1.1 200 OK\r\nContent-Length: %d\r\nX-R: %d-%d\r\n\r\n' % (len(rb), k, j) + rb)
             cn['reqs'], cn['resps'] = reqs, resps
             cn['burst'] = tape.coin(0.5, 'burst')
+        elif role == 'web':
+            if tape.coin(0.4, 'web-big'):
+                cn['size'] = [2000, 30000][tape.draw(2, 'web-size')]
+                cn['halfclose'] = tape.coin(0.6, 'halfclose')
+                if cn['halfclose']:
+                    probes.append('client_half_close')
         elif role == 'malformed':
             cn['bytes'] = [b'garbage\r\n\r\n', b'GET ftp://x/ HTTP/1.1\r\n\r\n', b'GET / HTTP/9.9\r\n\r\n'][tape.draw(3, 'bad')]
         conns.append(cn)
